@@ -7,13 +7,14 @@ from vlib.core import digest
 PROPERTY = "C17"
 LEVEL = "exploration"
 RULE = ("Two feature files on disk (features/f0.feature, features/f1.feature in a scratch directory that is the cwd), each "
-        "one of 9 (thorough: 10) small shapes (plain scenarios, outlines with 1-2 rows / two examples blocks, scenarios and outlines "
-        "inside rules, feature background on/off); every scenario slot (plain scenario or outline row) gets one kind of "
+        "one of 11 (thorough: 13) small shapes (plain scenarios, outlines with 1-2 rows / two examples blocks, scenarios and outlines "
+        "inside rules, outlines with a header-only (row-less) Examples block before / after a block with rows, feature "
+        "background on/off); every scenario slot (plain scenario or outline row) gets one kind of "
         "{pass, fail (AssertionError), error (RuntimeError), undef (no step definition), pend (StepNotImplementedError), "
         "hookb (before_scenario raises for it), hooka (after_scenario raises for it), desel (tagged @x, run with "
         "--tags='not x'; its step would fail)}; deviation bounding: all assignments with <= 2 (quick) / <= 4 (thorough) "
-        "non-pass slots over 11 (thorough: 17) ordered shape pairs with 2-6 scenario slots; x stale rerun.txt present/absent; "
-        "plus, on 3 (thorough: 19) pairs, one container-level hook fault - after_feature / after_tag of a feature tag / "
+        "non-pass slots over 12 (thorough: 19) ordered shape pairs with 2-6 scenario slots; x stale rerun.txt present/absent; "
+        "plus, on 3 (thorough: 21) pairs, one container-level hook fault - after_feature / after_tag of a feature tag / "
         "before_feature for each file, after_rule / after_tag of a rule tag / before_rule for each rule (the container ends "
         "hook_error; after-hooks leave the scenarios' statuses alone, before-hooks leave them untested) - combined with "
         "<= 2 (thorough: <= 3, on the quick pairs) non-pass slots, stale file present; plus, on 3 (thorough: 6) pairs, the "
@@ -28,8 +29,9 @@ RULE = ("Two feature files on disk (features/f0.feature, features/f1.feature in 
         "pairs of features carrying @t on exactly one element (an Examples block - the rows are then selected only through "
         "it -, an outline, a scenario, a rule, the feature, an Examples block inside a rule) run under {no tags, --tags=t} x "
         "{show_skipped, --no-skipped} in both runs with <= 1 non-pass slot of every kind and pairs of failing slots, so that "
-        "unsuccessful scenarios fall among the selected and the de-selected ones (ground truth: final scenario statuses of "
-        "the model, cross-checked with the kinds; never formatter events). Run 1 = real Configuration "
+        "unsuccessful scenarios fall among the selected and the de-selected ones (ground truth everywhere: the final status of the scenario objects handed to "
+        "the before_scenario hook while they execute, keyed by file:line and cross-checked with the kinds and with the model "
+        "walked afterwards; never formatter events). Run 1 = real Configuration "
         "(-f rerun -o rerun.txt features), collect_feature_locations + parse_features on the files, formatters from "
         "make_formatters, ModelRunner with a fresh StepRegistry. Oracle: rerun.txt lists exactly file:line (line known "
         "from the renderer) of the scenarios whose final status is failed or error-class, in run order; none -> no file "
@@ -70,12 +72,16 @@ SHAPES = {
     "R(S)+R(O1)": _F((_R((_S(),)), _R((_O(ROWS1),)))),
     "O1|1": _F((P.O2([((), ROWS1), ((), ROWS1)]),)),
     "S,O2+R(S,O1)": _F((_S(), _O(ROWS2), _R((_S(), _O(ROWS1))))),
+    # outlines with a row-less Examples block (header only, legal) before / after a block that has rows
+    "E0|O2": _F((P.O2([((), ()), ((), ROWS2)]),)),
+    "O1|E0,S": _F((P.O2([((), ROWS1), ((), ())]), _S())),
+    "S+R(E0|O1)": _F((_S(), _R((P.O2([((), ()), ((), ROWS1)]),)))),
     "R(S)+R(S)": _F((_R((_S(),)), _R((_S(),)))),            # identical-titles dimension only
     "O1,O1": _F((_O(ROWS1), _O(ROWS1))),                    # identical-titles dimension only
 }
 QUICK_PAIRS = (("S", "S"), ("SS", "O2"), ("O2", "S+R(S)"), ("S+R(S)", "SS"), ("bg:S,O1", "R(S,O1)"),
                ("R(S,O1)", "O1|1"), ("O1|1", "bg:S,O1"), ("S", "O1+R(O2)"), ("O1+R(O2)", "S"), ("R(S)+R(O1)", "SS"),
-               ("O2", "R(S)+R(O1)"))
+               ("O2", "R(S)+R(O1)"), ("E0|O2", "O1|E0,S"))
 # pairs that get the container-level hook faults in the quick tier (feature faults in both files; a rule holding a plain
 # scenario in f0, a rule holding a scenario and an outline row in f1)
 QUICK_FAULT_PAIRS = (("S", "S"), ("S+R(S)", "O2"), ("S", "R(S,O1)"))
@@ -85,7 +91,7 @@ QUICK_FAULT_PAIRS = (("S", "S"), ("S+R(S)", "O2"), ("S", "R(S,O1)"))
 DUP_PAIRS = (("SS", "S+R(S)"), ("R(S)+R(S)", "O1,O1"), ("O1+R(O2)", "SS"))
 DUP_PAIRS_THOROUGH = DUP_PAIRS + (("S,O2+R(S,O1)", "S"), ("bg:S,O1", "R(S,O1)"), ("O2", "R(S)+R(O1)"))
 THOROUGH_PAIRS = QUICK_PAIRS + (("SS", "SS"), ("O2", "O2"), ("O1+R(O2)", "R(S,O1)"), ("S", "S,O2+R(S,O1)"),
-                                ("S,O2+R(S,O1)", "S"), ("R(S)+R(O1)", "O1+R(O2)"))
+                                ("S,O2+R(S,O1)", "S"), ("R(S)+R(O1)", "O1+R(O2)"), ("O1|E0,S", "S+R(E0|O1)"))
 
 
 # ------------------------------------------------------------------------------------------- program construction
@@ -254,7 +260,8 @@ def one_run(m, args, loc2path, faults, loc2cont=None, cfault=None, feedback=Fals
     from behave.runner_util import parse_features, collect_feature_locations
     from behave.formatter._registry import make_formatters
     obs = {"escaped": None, "feed_exc": None, "verdict": None, "status": {}, "selected": {}, "calls": [], "before": [],
-           "after": [], "unknown": [], "present": [], "chooks": [], "cstatus": {}}
+           "after": [], "unknown": [], "present": [], "chooks": [], "cstatus": {}, "mstatus": {}}
+    live = {}            # file:line -> the scenario object that was really executed (kept at execution time)
     config = m["Configuration"](list(args), load_config=False)
     try:
         locations = collect_feature_locations(config.paths)
@@ -299,6 +306,7 @@ def one_run(m, args, loc2path, faults, loc2cont=None, cfault=None, feedback=Fals
 
     def before_scenario(ctx, scenario):
         p = path_of(scenario)
+        live[p] = scenario
         obs["before"].append(p)
         if faults.get(p) == "hookb":
             raise harness.HookFault("before_scenario fault")
@@ -339,7 +347,13 @@ def one_run(m, args, loc2path, faults, loc2cont=None, cfault=None, feedback=Fals
             if p == "?":
                 obs["unknown"].append(str(s.location))
             else:
-                obs["status"][p] = s.status.name
+                obs["mstatus"][p] = s.status.name
+    # ground truth: how the scenarios that were executed ended, read from the objects the runner handed to the
+    # before_scenario hook; the model walked after the run only speaks for scenarios that were never started
+    obs["status"] = dict(obs["mstatus"])
+    for p, s in live.items():
+        if p != "?":
+            obs["status"][p] = s.status.name
     obs["fstatus"] = {f.filename: f.status.name for f in feats}
     for cp, c in conts:
         obs["cstatus"][cp] = c.status.name
@@ -510,6 +524,12 @@ def rerun_case(case):
                 v.append(({"subcheck": "run.status", "clause": "kind-gives-other-status", "kind": kind_of[p],
                            "status": str(st1.get(p))},
                           "run 1: scenario %r of kind %s ended %s" % (p, kind_of[p], st1.get(p))))
+        for p in order:
+            if p in o1["before"] and o1["mstatus"].get(p) != st1.get(p):
+                v.append(({"subcheck": "run.model", "clause": "walked-model-differs-from-executed-scenario",
+                           "elem": elem_class(p, prog)},
+                          "run 1: scenario %r was executed and ended %s, feature.walk_scenarios() afterwards yields a "
+                          "scenario at that location with status %s" % (p, st1.get(p), o1["mstatus"].get(p))))
         text1, entries1 = read_listing(v, "run 1")
         expected1 = check_listing(v, "run 1 %skinds=%s stale=%s cfault=%s" % (opts and "%s " % list(opts) or "", list(kinds),
                                                                           stale, cfault), st1, order,
@@ -736,7 +756,7 @@ def run(ctx):
                   "container_hook_faults": "every single one of after_feature/after_tag/before_feature per feature and "
                                            "after_rule/after_tag/before_rule per rule",
                   "container_fault_pairs": "3 pairs, <= 2 non-pass scenarios" if ctx.quick else
-                                           "19 pairs, <= 3 non-pass scenarios on the 11 quick pairs, <= 2 on the others",
+                                           "21 pairs, <= 3 non-pass scenarios on the 12 quick pairs, <= 2 on the others",
                   "identical_titles": "%d pairs, <= %d non-pass scenarios, all Scenario/Outline/Rule/Examples titles equal"
                                       % ((len(DUP_PAIRS), 2) if ctx.quick else (len(DUP_PAIRS_THOROUGH), 3)),
                   "special_bystander_tags": "@setup/@teardown on a scenario (3 positions), an outline (3 positions), an "
